@@ -235,6 +235,7 @@ def run_job(job):
                 return q, r, None
             return q, r, {os.path.normpath(os.path.join(w, row[0])): list(row[1:]) for row in rows}
 
+        pool = []
         for qi in range(job["queries"]):
             n = rng.randint(1, 5)
             words = rng.random() < 0.25
@@ -266,6 +267,7 @@ def run_job(job):
             if len(set(texts)) != len(texts):
                 continue
             q, r, table = cells_for(texts, trace=(qi % 3 == 0))
+            pool.append(q)
             ctx = {"query": q, "result": r.brief()}
             if table is None:
                 if r.verdict == "busy":
@@ -364,6 +366,10 @@ def run_job(job):
             res.cover("from", frm)
             res.nt("|".join(texts))
             res.sample({"query": q, "row": list(table.values())[0]}, cap=3)
+        # history: in interactive mode (`fselect -i`) the same queries run in one process, one after the other - each must
+        # print what it prints when run alone
+        if len(pool) >= 2 and job.get("session", True):
+            runner.session_matches(res, rng.sample(pool, min(4, len(pool))), w, home, "expression columns")
     finally:
         runner.rm_scratch(sc)
     return res
